@@ -9,6 +9,8 @@
 
   Elements outside the base namespace are written by lxml with a generated prefix: `ns0:` declared on the
   element itself (`xmlns:ns0`), which is what the trees below contain.  The order of checks is the code's.
+  Also here, so that EVERY entry of `manager.OPERATIONS` has a model: GetSchema, GenericRPC (`rpc`), the two flowmon
+  power operations, Validate / CopyConfig with element arguments.
   Not modelled: the `(ns-map, select)` form of an XPath filter (prefix declarations on `<filter>`).
 -/
 import NcVerif.Model.Builders
@@ -107,13 +109,89 @@ def createSubscription (caps : Caps.Caps) (filter : Option Filter) (stream start
   let t1 ← nsOpt "stopTime" stop
   pure (.elem (s "ns0:create-subscription") [(s "xmlns:ns0", notifNs)] (f ++ st ++ t0 ++ t1))
 
+def monNs : Str := s "urn:ietf:params:xml:ns:yang:ietf-netconf-monitoring"
+def pcNs : Str := s "urn:liberouter:params:xml:ns:netconf:power-control:1.0"
+
+/-- A text element under a prefix that its parent declares. -/
+def pfxLeaf (pfx name : String) (t : Str) : Res :=
+  if xmlCompatible t then .ok (.elem (s pfx ++ s name) [] (if t.isEmpty then [] else [.text t])) else .error .valueError
+
+def optPfxLeaf (pfx name : String) : Option Str → Except Refusal (List XNode)
+  | none => pure []
+  | some t => do
+    let l ← pfxLeaf pfx name t
+    pure [l]
+
+/-- `GetSchema.request(identifier, version, format)`: elements of the monitoring namespace (registered prefix `ncm`). -/
+def getSchema (identifier : Str) (version format : Option Str) : Res := do
+  let i ← pfxLeaf "ncm:" "identifier" identifier
+  let v ← optPfxLeaf "ncm:" "version" version
+  let f ← optPfxLeaf "ncm:" "format" format
+  pure (.elem (s "ncm:get-schema") [(s "xmlns:ncm", monNs)] ([i] ++ v ++ f))
+
+/-- `validated_element(config, ("config", qualify("config")))` for an optional configuration element. -/
+def configElPart : Option XNode → Except Refusal (List XNode)
+  | none => pure []
+  | some c => if rootIsConfig c then pure [c] else .error .xmlError
+
+def targetPart (caps : Caps.Caps) : Option Str → Except Refusal (List XNode)
+  | none => pure []
+  | some t => do
+    let x ← datastoreOrUrl (has caps) "target" t
+    pure [x]
+
+/-- `GenericRPC.request(rpc_command, source, filter, config, target)` with the command given as a string. -/
+def genericRpc (caps : Caps.Caps) (cmd : Str) (target source : Option Str) (filter : Option Filter) (config : Option XNode) : Res := do
+  let root ← named cmd
+  let t ← targetPart caps target
+  let src ← sourcePart caps source
+  let f ← filterPart filter
+  let c ← configElPart config
+  match root with
+  | .elem n a _ => pure (.elem n a (t ++ src ++ f ++ c))
+  | .text _ => .error .valueError
+
+/-- `PoweroffMachine` / `RebootMachine` (flowmon): DEPENDS names the capability by its full URI. -/
+def power (caps : Caps.Caps) (name capUri : String) : Res := do
+  let _ ← assertCap (has caps) capUri
+  pure (.elem (s "ns0:" ++ s name) [(s "xmlns:ns0", pcNs)] [])
+
+def poweroffCap : String := "urn:liberouter:param:netconf:capability:power-control:1.0"
+def rebootCap : String := "urn:liberouter:params:netconf:capability:power-control:1.0"
+
+/-- `Validate(…).request(source)` with a `config` ELEMENT as source. -/
+def validateEl (caps : Caps.Caps) (cfg : XNode) : Res := do
+  let _ ← assertCap (has caps) ":validate"
+  if rootIsConfig cfg then pure (el "validate" [el "source" [cfg]]) else .error .xmlError
+
+def rootIsSource : XNode → Bool
+  | .elem n _ _ => n = nc "source" || n = s "source"
+  | .text _ => false
+
+/-- `CopyConfig.request(source, target)` with a ready-made `<source>` ELEMENT (holding the configuration to copy). -/
+def copyConfigEl (caps : Caps.Caps) (target : Str) (src : XNode) : Res := do
+  let t ← datastoreOrUrl (has caps) "target" target
+  if rootIsSource src then pure (el "copy-config" [t, src]) else .error .valueError
+
 inductive Call
+  | getSchema (identifier : Str) (version format : Option Str)
+  | rpc (cmd : Str) (target source : Option Str) (filter : Option Filter) (config : Option XNode)
+  | poweroff
+  | reboot
+  | validateEl (cfg : XNode)
+  | copyEl (target : Str) (src : XNode)
   | get (filter : Option Filter) (wd : Option Str)
   | getConfig (source : Str) (filter : Option Filter) (wd : Option Str)
   | dispatch (cmd : Str) (source : Option Str) (filter : Option Filter)
   | subscribe (filter : Option Filter) (stream start stop : Option Str)
 
 def build (caps : Caps.Caps) : Call → Res
+  | .getSchema i v f => getSchema i v f
+  | .rpc c t src f cfg => genericRpc caps c t src f cfg
+  | .poweroff => power caps "poweroff-machine" poweroffCap
+  | .reboot => power caps "reboot-machine" rebootCap
+  | .validateEl cfg => validateEl caps cfg
+  | .copyEl t src => copyConfigEl caps t src
   | .get f w => get caps f w
   | .getConfig src f w => getConfig caps src f w
   | .dispatch c src f => dispatch caps c src f
@@ -125,6 +203,12 @@ def optUrlCap : Option Str → List String
 
 /-- The capabilities a call documentedly depends on, from its ARGUMENTS (RFC 6241 §8.8, RFC 6243, RFC 5277). -/
 def required : Call → List String
+  | .getSchema _ _ _ => []
+  | .rpc _ t src _ _ => optUrlCap t ++ optUrlCap src
+  | .poweroff => [poweroffCap]
+  | .reboot => [rebootCap]
+  | .validateEl _ => [":validate"]
+  | .copyEl t _ => urlCap t
   | .get _ w => if w.isSome then [":with-defaults"] else []
   | .getConfig src _ w => urlCap src ++ (if w.isSome then [":with-defaults"] else [])
   | .dispatch _ src _ => optUrlCap src
@@ -138,9 +222,22 @@ def wdOf : Call → Option Str
 
 /-- The filter of a call. -/
 def filterOf : Call → Option Filter
+  | .rpc _ _ _ f _ => f
+  | .getSchema _ _ _ => none
+  | .poweroff => none
+  | .reboot => none
+  | .validateEl _ => none
+  | .copyEl _ _ => none
   | .get f _ => f
   | .getConfig _ f _ => f
   | .dispatch _ _ f => f
   | .subscribe f _ _ _ => f
+
+/-- The caller's own element arguments other than the filter. -/
+def elemArgs : Call → List XNode
+  | .rpc _ _ _ _ (some c) => [c]
+  | .validateEl c => [c]
+  | .copyEl _ src => [src]
+  | _ => []
 
 end NcVerif.Retrieve
